@@ -33,8 +33,6 @@ CL = "nauyaca.client.session:GeminiClient"
 TOFU = "nauyaca.security.tofu:TOFUDatabase"
 PURL = "nauyaca.utils.url:ParsedURL"
 S, I, B = z3.StringSort(), z3.IntSort(), z3.BoolSort()
-key_of = z3.Function("pin_key", S, I, I)            # injective pairing of (host, port)
-fp_of = z3.Function("sha256_der_fingerprint", I, S)
 SV = z3.StringVal
 
 
@@ -47,54 +45,27 @@ def add_targets(E, spec, pid):
         for m in ("__init__", "connection_made", "send_request", "get_peer_certificate"):
             E.inline.add(f"{cls}.{m}")
 
-    # ---- abstract pin map on the TOFU database object ------------------------------------------------
+    # ---- the TOFU store enters by the contracts of contracts/tofu_store.py (proved against the SQLite model) ----
+    from contracts import tofu_store
+    st = tofu_store.install(E)
+    committed = st["committed"]
+    fp_of = st["fp_of"]
+    import copy
+    c_verify = copy.copy(E.contracts[f"{TOFU}.verify"])
+
+    def note_verified(ctx, old, args, outcome):
+        """ghost: the certificate of THIS connection was accepted by verify"""
+        if outcome[0] == "return":
+            res = outcome[1]
+            cert = ctx.force(args[3])
+            ctx.ghost["g_verified"] = z3.Or(ctx.ghost.get("g_verified", z3.BoolVal(False)),
+                                            z3.And(ctx.force(res.items[0]).z, ctx.ghost.get("this_conn_cert") == cert.ident))
+        return None
+    c_verify.ensures = list(c_verify.ensures) + [("ghost", note_verified)]
+    E.caller_contracts[f"{TOFU}.verify"] = c_verify
+
     def mk_db(ctx):
-        db = ctx.alloc(TOFU, {})
-        h = ctx.heap[db.oid]
-        h["pins_has"] = z3.Array("pins.has", I, B)
-        h["pins_fp"] = z3.Array("pins.fp", I, S)
-        return db
-
-    def cert_id(ctx, c):
-        c = ctx.force(c)
-        return c.ident
-
-    def verify_post(ctx, old, args, outcome):
-        db, host, port, cert = args
-        k = key_of(host.z, port.z)
-        has, fp = old.snap[db.oid]["pins_has"], old.snap[db.oid]["pins_fp"]
-        if outcome[0] != "return":
-            return z3.BoolVal(True)
-        res = outcome[1]
-        valid, msg = res.items[0].z, res.items[1].z
-        f = fp_of(cert_id(ctx, cert))
-        ctx.ghost["g_verified"] = z3.Or(ctx.ghost.get("g_verified", z3.BoolVal(False)), z3.And(valid, ctx.ghost.get("this_conn_cert") == cert_id(ctx, cert)))
-        return z3.And(z3.Implies(z3.Not(has[k]), z3.And(valid, msg == SV("first_use"))),
-                      z3.Implies(z3.And(has[k], fp[k] == f), z3.And(valid, msg == SV(""))),
-                      z3.Implies(z3.And(has[k], fp[k] != f), z3.And(z3.Not(valid), msg == SV("changed"))))
-    E.contracts[f"{TOFU}.verify"] = Contract(f"{TOFU}.verify", ensures=[("verify", verify_post)], result=T.tuple(T.bool(), T.str()), raises=["sqlite3.Error"])
-
-    def trust_post(ctx, old, args, outcome):
-        db, host, port, cert = args
-        if outcome[0] != "return":
-            return z3.BoolVal(True)
-        k = key_of(host.z, port.z)
-        h = ctx.heap[db.oid]
-        h["pins_has"] = z3.Store(old.snap[db.oid]["pins_has"], k, z3.BoolVal(True))
-        h["pins_fp"] = z3.Store(old.snap[db.oid]["pins_fp"], k, fp_of(cert_id(ctx, cert)))
-        return z3.BoolVal(True)
-    E.contracts[f"{TOFU}.trust"] = Contract(f"{TOFU}.trust", ensures=[("trust", trust_post)], result=T.none, raises=["sqlite3.Error"])
-
-    def ghi_result(ctx, args):
-        db, host, port = args
-        k = key_of(host.z, port.z)
-        has, fp = ctx.heap[db.oid]["pins_has"], ctx.heap[db.oid]["pins_fp"]
-        return T.make(lambda c, h: VLazyOpt(has[k], lambda c2: c2.alloc_dict({"fingerprint": VStr(fp[k]), "hostname": host, "port": port}), "host info"))
-    E.contracts[f"{TOFU}.get_host_info"] = Contract(f"{TOFU}.get_host_info", ensures=[], result=ghi_result, raises=["sqlite3.Error"])
-
-    E.contracts["nauyaca.security.certificates:get_certificate_fingerprint"] = Contract(
-        "nauyaca.security.certificates:get_certificate_fingerprint",
-        ensures=[("sha256 of DER", lambda ctx, old, a, o: o[1].z == fp_of(ctx.force(a[0]).ident))], result=T.str())
+        return st["mk_self"](ctx)
 
     # ---- parse_url by contract (C19) -----------------------------------------------------------------
     def purl_result(ctx, args):
@@ -178,68 +149,68 @@ def add_targets(E, spec, pid):
         cl = ctx.alloc(CL, {"timeout": VReal(z3.Real("self.timeout")), "ssl_context": VOpaque("sslctx", z3.Int("sslctx_id")),
                             "max_redirects": VInt(z3.Int("self.max_redirects"))})
         ctx.heap[cl.oid]["tofu_db"] = VLazyOpt(z3.Bool("tofu_enabled"), lambda c: db, "self.tofu_db")
-        ctx.heap[cl.oid]["g_db"] = db
         ctx.ghost["tofu_mode"] = z3.Bool("tofu_enabled")
         ctx.ghost["g_verified"] = z3.BoolVal(False)
         ctx.ghost["connections"] = []
         return cl, db
 
-    def pins_same(ctx, old, db, except_key=None):
-        h0, h1 = old.snap[db.oid], ctx.heap[db.oid]
-        kk = z3.Int("any_other_key")
-        cond = z3.And(h1["pins_has"][kk] == h0["pins_has"][kk], h1["pins_fp"][kk] == h0["pins_fp"][kk])
-        if except_key is None:
-            return z3.ForAll([kk], cond)
-        return z3.ForAll([kk], z3.Implies(kk != except_key, cond))
-
     def common_post(ctx, old, args, outcome, host, port):
         cl = args[0]
-        db = ctx.heap[cl.oid]["g_db"]
         tofu = z3.Bool("tofu_enabled")
         t = ctx.ghost.get("ct")
         out = ctx.getf(t, "g_out").z if t is not None else SV("")
         closed = ctx.getf(t, "g_closed").z if t is not None else z3.BoolVal(True)
         conns = ctx.ghost.get("connections", [])
-        k = key_of(host, port)
-        h0, h1 = old.snap[db.oid], ctx.heap[db.oid]
+        c0, c1 = committed(ctx, old.snap), committed(ctx)
         f = fp_of(z3.Int("peer_cert_id"))
-        cert_read = ctx.ghost.get("cert_was_read", z3.BoolVal(False))
-        parts = [z3.BoolVal(len(conns) <= 1)]
+        verified = ctx.ghost.get("g_verified", z3.BoolVal(False))
+        had, old_fp = c0.present(host, port), c0.get("fp", host, port)
+        pins_same = z3.And(c1.has == c0.has, c1.fp == c0.fp)
+        others_same = c1.same_except(c0, host, port, cols=("fp",), tag="s")
+        P = {"C16": [z3.BoolVal(len(conns) <= 1)], "C13": [], "C03": [], "C11": []}
         if conns:
             ch, cp = conns[0][0], conns[0][1]
-            parts.append(z3.And(ch.z == host, cp.z == port))
+            P["C16"].append(z3.And(ch.z == host, cp.z == port))
         if ctx.ghost.get("connected"):
-            parts.append(closed)                                    # C13: the transport is closed on every exit
-        parts.append(z3.Implies(z3.Not(tofu), pins_same(ctx, old, db)))
+            P["C13"].append(closed)                                    # the transport is closed on every exit
+        P["C03"].append(z3.Implies(z3.Not(tofu), pins_same))
         if outcome[0] == "return":
             r = ctx.force(outcome[1])
-            parts.append(z3.BoolVal(isinstance(r, VObj) and r.cls == RESP and ctx.ghost.get("response_obj") is not None and r.oid == ctx.ghost["response_obj"].oid))
-            parts.append(z3.Implies(tofu, z3.And(ctx.ghost.get("g_verified", z3.BoolVal(False)),
-                                                 z3.Or(z3.Not(h0["pins_has"][k]), h0["pins_fp"][k] == f),
-                                                 h1["pins_has"][k], h1["pins_fp"][k] == f, pins_same(ctx, old, db, k))))
+            P["C13"].append(z3.BoolVal(isinstance(r, VObj) and r.cls == RESP and ctx.ghost.get("response_obj") is not None and r.oid == ctx.ghost["response_obj"].oid))
+            P["C03"].append(z3.Implies(tofu, z3.And(verified, z3.Or(z3.Not(had), old_fp == f),
+                                                    c1.present(host, port), c1.get("fp", host, port) == f, others_same)))
         else:
             exc = outcome[1]
             if exc.cls == "CertificateChangedError":
-                parts += [tofu, h0["pins_has"][k], h0["pins_fp"][k] != f, pins_same(ctx, old, db), out == SV(""),
-                          ctx.force(exc.fields["old_fingerprint"]).z == h0["pins_fp"][k], ctx.force(exc.fields["new_fingerprint"]).z == f,
-                          ctx.force(exc.fields["hostname"]).z == host, ctx.force(exc.fields["port"]).z == port]
+                P["C03"] += [tofu, had, old_fp != f, pins_same,
+                             ctx.force(exc.fields["old_fingerprint"]).z == old_fp, ctx.force(exc.fields["new_fingerprint"]).z == f,
+                             ctx.force(exc.fields["hostname"]).z == host, ctx.force(exc.fields["port"]).z == port]
+                P["C11"].append(out == SV(""))
             else:
                 # any other failure: a pin changes at most to the presented certificate on first use
-                parts.append(z3.Implies(tofu, z3.Or(pins_same(ctx, old, db),
-                                                    z3.And(z3.Not(h0["pins_has"][k]), h1["pins_has"][k], h1["pins_fp"][k] == f, pins_same(ctx, old, db, k)))))
+                P["C03"].append(z3.Implies(tofu, z3.Or(pins_same, z3.And(z3.Not(had), c1.present(host, port), c1.get("fp", host, port) == f, others_same))))
         # C11 (also enforced at every write): anything on the wire implies a verified certificate
-        parts.append(z3.Implies(z3.And(tofu, out != SV("")), ctx.ghost.get("g_verified", z3.BoolVal(False))))
-        return z3.And(*parts)
+        P["C11"].append(z3.Implies(z3.And(tofu, out != SV("")), verified))
+        return {k: z3.And(*v) if v else z3.BoolVal(True) for k, v in P.items()}
+
+    CLAUSES = {
+        "C03": "[C03] with TOFU a response is returned only when the peer certificate was read and verified against an absent or equal pin, and pins exactly that key to it; CertificateChangedError names host, port, the old pin and the presented fingerprint and leaves every pin unchanged; any other failure changes no pin except a first-use pin of the presented certificate; without TOFU no pin changes",
+        "C11": "[C11] bytes on the wire imply a verified certificate; nothing was sent when CertificateChangedError is raised",
+        "C13": "[C13] the transport is closed on every exit after the connection was made; a returned value is the response the protocol resolved",
+        "C16": "[C16] at most one connection, to the host and port parse_url reports for the URL",
+    }
+
+    def clause_posts(hostf, portf):
+        def mkpost(tag):
+            return lambda ctx, old, args, outcome: common_post(ctx, old, args, outcome, hostf(), portf())[tag]
+        return [(CLAUSES[t], mkpost(t)) for t in ("C03", "C11", "C13", "C16")]
 
     # ---- _get_single ----------------------------------------------------------------------------------------
     def gs_args(ctx):
         cl, db = mk_client(ctx)
         return [cl, VStr(z3.String("url"))], {}
 
-    def gs_post(ctx, old, args, outcome):
-        return common_post(ctx, old, args, outcome, z3.String("parsed.hostname"), z3.Int("parsed.port"))
-    c_gs = Contract(f"{CL}._get_single", make_args=gs_args,
-                    ensures=[("[C03,C11,C13,C16] one connection to the URL's host/port; with TOFU a response is returned only for an absent or matching pin and pins that key to the presented certificate; CertificateChangedError names both fingerprints, leaves every pin unchanged and nothing was sent; the transport is closed on every exit", gs_post)])
+    c_gs = Contract(f"{CL}._get_single", make_args=gs_args, ensures=clause_posts(lambda: z3.String("parsed.hostname"), lambda: z3.Int("parsed.port")))
 
     # ---- upload -------------------------------------------------------------------------------------------------
     def up_args(ctx):
@@ -247,12 +218,7 @@ def add_targets(E, spec, pid):
         content = mk(ctx, T.union(T.bytes(), T.str()), "content", True)
         return [cl, VStr(z3.String("url")), content, VStr(z3.String("mime_type")), mk(ctx, T.opt(T.str()), "token", True)], {}
 
-    def up_post(ctx, old, args, outcome):
-        if not ctx.ghost.get("connections") and outcome[0] == "raise":
-            return common_post(ctx, old, args, outcome, z3.String("parsed.hostname"), z3.Int("parsed.port"))
-        return common_post(ctx, old, args, outcome, z3.String("parsed.hostname"), z3.Int("parsed.port"))
-    c_up = Contract(f"{CL}.upload", make_args=up_args,
-                    ensures=[("[C03,C11,C13] same as _get_single for the Titan upload: pin check before any byte (URL, token, content) is sent; pins change only by first-use pinning of the presented certificate", up_post)])
+    c_up = Contract(f"{CL}.upload", make_args=up_args, ensures=clause_posts(lambda: z3.String("parsed.hostname"), lambda: z3.Int("parsed.port")))
 
     # get_peer_certificate (inlined) reads the certificate: record that it was read
     base_load = M["cryptography.x509.load_der_x509_certificate"]
@@ -268,7 +234,12 @@ def add_targets(E, spec, pid):
     spec.event_contracts[f"{CL}._get_single"] = c_gs
     spec.event_contracts[f"{CL}.upload"] = c_up
     spec.targets += [(f"{CL}._get_single", None), (f"{CL}.upload", None)]
-    spec.trusted += ["E3: create_connection / wait_for as described in contracts/client_session.py", "E12: fingerprint is a function of the certificate; key(host, port) is an injective pairing",
-                     "TOFUDatabase.verify/trust/get_host_info by contract over the abstract pin map (proved against the SQLite model under C03/C12)",
+    tags = {"C03": ("[C03]", "[C03,"), "C11": ("[C11]", "requires/C11", "[C11,"), "C13": ("[C13]", "[C13,", "[INV,C13]")}.get(pid)
+    if tags:
+        prev = getattr(spec, "keep", None)
+        sess = (f"{CL}._get_single/", f"{CL}.upload/")
+        spec.keep = lambda name, _p=prev: (any(t in name for t in tags) if name.startswith(sess) else (_p(name) if _p else True))
+    spec.trusted += ["E3: create_connection / wait_for as described in contracts/client_session.py", "E12: fingerprint is a function of the certificate",
+                     "TOFUDatabase.verify/trust/get_host_info by the contracts of contracts/tofu_store.py over the durable table (proved against the SQLite model E9 in the same run for C03, under C12 otherwise)",
                      "parse_url by contract (C19): host/port of the connection are parse_url(url)'s"]
     return env
